@@ -111,6 +111,8 @@ class MiniEval:
             if tname in table:
                 return isinstance(obj, table[tname])
             raise Unsupported(f"isinstance against {tname}")
+        if isinstance(n.func, ast.Attribute) and n.func.attr == "__init__" and isinstance(n.func.value, ast.Call) and isinstance(n.func.value.func, ast.Name) and n.func.value.func.id == "super":
+            return None  # super().__init__(...) of a library base class: no model state
         if isinstance(n.func, ast.Name) and n.func.id == "next" and n.func.id not in self.env and 1 <= len(n.args) <= 2:
             it = self.ev(n.args[0])
             try:
@@ -330,7 +332,7 @@ class MiniEval:
         elif isinstance(target, (ast.Tuple, ast.List)):
             vals = list(value)
             if len(vals) != len(target.elts):
-                raise Unsupported("unpack arity")
+                raise ModelRaise("ValueError", f"cannot unpack {len(vals)} value(s) into {len(target.elts)} target(s)")
             for t, v in zip(target.elts, vals):
                 self._bind(t, v)
         elif isinstance(target, ast.Attribute):
